@@ -489,7 +489,7 @@ def coq_blif_expr(models, merge, inss, fuel=None):
 
 
 def run_blif_case(ctx, fam, key, models, inss, merge, fuel=None, nontrivial=None, sample=False, extra=None,
-                  reject_ok=None):
+                  reject_ok=None, coq=True):
     """returns a pending-case dict (Coq results are filled in later, in one batch)"""
     top = models[0]
     lib = {m.name: m for m in models}
@@ -533,6 +533,8 @@ def run_blif_case(ctx, fam, key, models, inss, merge, fuel=None, nontrivial=None
         ctx.spec_violation('blif:%s:trace' % fam,
                            'imported BLIF block differs from BLIF semantics (%s) at cycle %d: expected %s got %s'
                            % (fam, t, expected[t], got[t]), dict(rep, expected=expected, got=got, cycle=t))
+    if not coq:      # search only (implementation vs independent evaluator); the Coq models see a shorter run
+        return None
     expr = coq_blif_expr(models, merge, inss, fuel)
     return {'expr': expr, 'got': got, 'expected': expected, 'rep': rep, 'fam': fam}
 
@@ -810,7 +812,14 @@ def run_flops(ctx):
     order = 3
     seq = de_bruijn(16, order)
     inss = [[(v >> i) & 1 for i in range(4)] for v in seq]
-    pend = [run_blif_case(ctx, 'flop', 'debruijn', [m], inss, True, fuel=6, nontrivial=True, sample=False)]
+    # every window of 3 consecutive pin valuations: implementation vs the independent evaluator; the three Coq
+    # evaluators (semantics, importer model, name-resolution model) get the order-2 sequence in the quick tier
+    # (every window of 2; the per-cell next-state function is proved exhaustively in C12_flop_table_correct)
+    pend = [run_blif_case(ctx, 'flop', 'debruijn3', [m], inss, True, fuel=6, nontrivial=True, sample=False,
+                          coq=(ctx.tier != 'quick'))]
+    if ctx.tier == 'quick':
+        inss2 = [[(v >> i) & 1 for i in range(4)] for v in de_bruijn(16, 2)]
+        pend.append(run_blif_case(ctx, 'flop', 'debruijn2', [m], inss2, True, fuel=6, nontrivial=True))
     # per-cell cases from reset: every 2-cycle prefix (quick) / 3-cycle prefix (thorough), one model per cell group
     depth = 2 if ctx.tier == 'quick' else 3
     prefixes = list(itertools.product(range(16), repeat=depth))
